@@ -3,7 +3,7 @@
     [w] is the word size in bits (any w >= 8; 16/32/64 in the builds), B w = 2^w, word lists are
     little-endian, [value w] is the number a list denotes, [wf w] says every word is in [0, B). *)
 From Dashu Require Import Base.Prelude Base.Words Int.RingSpec Int.RingSign Int.RingAdd Int.RingAddProofs
-  Int.RingMul Int.RingMulProofs Int.RingKaraProofs Int.RingToomProofs Int.RingDispatchProofs Int.RingSqrProofs
+  Int.RingMul Int.RingMulProofs Int.RingKaraProofs Int.RingToomProofs Int.RingToomW Int.RingToomWProofs Int.RingDispatchProofs Int.RingSqrProofs
   Int.RingOps Int.RingOpsProofs Int.RingOpsMulProofs Int.RingPowProofs Int.RingTop Int.RingExamples.
 From DashuGen Require Import SignTables Params.
 Open Scope Z_scope.
@@ -75,6 +75,16 @@ Theorem C01_toom3_value_level : forall w, 8 <= w -> forall rec_same c s a b,
     value w r + carry * B w ^ len c = value w c + sgnz s * (value w a * value w b).
 Proof. exact toom3_ok. Qed.
 Print Assumptions C01_toom3_value_level.
+
+(** the word-level transcription of toom_3.rs (slices of c, scratch buffers t1/t2, evaluation at 0, 1, -1, 2
+    and infinity, the five deferred carries, the exact divisions by 6 and 2 with their remainders asserted
+    zero as in the code) never panics and meets the same contract, for every length >= 16 = MIN_LEN *)
+Theorem C01_toom3_word_level : forall w, 8 <= w -> forall rec_same c s a b,
+  pre w c a b -> length a = length b -> (16 <= length a)%nat -> same_ok w rec_same (length a) ->
+  exists r carry, toom3w_same_len w rec_same c s a b = Ok (r, carry) /\ length r = length c /\ wf w r /\
+    value w r + carry * B w ^ len c = value w c + sgnz s * (value w a * value w b).
+Proof. exact toom3w_ok. Qed.
+Print Assumptions C01_toom3_word_level.
 
 (** ---- the size dispatch, for EVERY admissible threshold triple and every pair of lengths *)
 Theorem C01_add_signed_mul_any_thresholds : forall w, 8 <= w -> forall T_simple T_kara CHUNK,
